@@ -164,11 +164,14 @@ def run(ctx):
 POINTER_DOC = {
     "a": {"b": [10, 20, {"c": 1}]}, "": "empty-key", "a/b": "slash", "m~n": "tilde", "~1": "tilde-one", "/": "slash-key", "0": "zero-key",
     "a b": "space", "a+b": "plus", "\u00e9": "accent", "arr": [["x"], "str"], "00": "double-zero", "1e0": "sci", "-1": "neg", "s": "text",
-    "n": None, "%25": "percent", "t": True,
+    "n": None, "%25": "percent", "t": True, "big": list(range(100, 112)), "caf\u00e9": "nfc", "cafe\u0301": "nfd", "\u2126": "ohm", "\u03a9": "omega",
+    "A": "upper", "a ": "trailing-space", "a?b#c": "query-hash", "q\"\\": "quote-backslash",
 }
 POINTERS = ["", "/a", "/a/b", "/a/b/0", "/a/b/2/c", "/a/b/3", "/a/b/-1", "/a/b/01", "/a/b/1e0", "/a/b/ 1", "/a/b/+1", "/a/b/1.0", "/", "//", "/a~1b", "/m~0n",
             "/~01", "/~1", "/0", "/a%20b", "/a+b", "/%C3%A9", "/a%2Fb", "/arr/0/0", "/arr/1/0", "/arr/1", "/s/0", "/n/x", "/00", "/1e0", "/-1",
-            "/missing", "/%2525", "/a/b/0/x", "/t/0", "/a/b/", "/a//b", "/a/b/\u0661"]
+            "/missing", "/%2525", "/a/b/0/x", "/t/0", "/a/b/", "/a//b", "/a/b/\u0661",
+            "/big/0", "/big/2", "/big/9", "/big/10", "/big/11", "/big/12", "/big/20", "/big/100", "/caf%C3%A9", "/cafe%CC%81", "/%E2%84%A6", "/%CE%A9",
+            "/A", "/a%20", "/a%3Fb%23c", "/q%22%5C", "/a?b#c"]
 _MISSING = object()
 
 
@@ -228,7 +231,20 @@ def run_rules(ctx):
     prog = ctx.prog
     f = find_method(prog, "validators.RefResolver", "resolve_fragment")
     try:
-        return run_rules_dataflow(ctx)
+        run_rules_dataflow(ctx)
+        # the ordering analysis speaks about the order of operations; what it cannot see (an extra test on the token, a
+        # normalisation of the decoded text, a comparison done on strings) is looked for on the table of fragments as well
+        res = table_eval(prog, f)
+        if res:
+            by = {r.id: r for r in ctx.rules if r.id.startswith("R14.")}
+            for (rid, key, msg) in res[:4]:
+                if rid in by and not by[rid].findings:
+                    by[rid].fail("%s|%s" % (f.qual, key), site(f), msg + " (table of %d fragments)" % len(POINTERS))
+        elif res is not None:
+            by = {r.id: r for r in ctx.rules if r.id.startswith("R14.")}
+            if "R14.4" in by:
+                by["R14.4"].ok(site(f) + " [table]", "agrees with the RFC 6901/3986 reference reading on %d fragments (escaped, empty, numeric, non-ASCII keys; arrays of 3 and 12)" % len(POINTERS))
+        return
     except AnalysisError as why:
         # the ordering analysis could not extract the pipeline (helpers, other control flow): decide on the table instead
         ctx.rules[:] = [r for r in ctx.rules if not r.id.startswith("R14.")]
